@@ -276,6 +276,86 @@ pub fn run(ctx: &mut Ctx) -> (&'static str, String, bool) {
         }
         ctx.merge(p);
     }
+    // ---- the same rule inside every packet that carries a car name (NPL, RES, SLC ...): what the field decodes to in a
+    //      packet must be what the identifier decodes to on its own, and an error there is an error here --------------
+    if let Ok(c) = crate::corpus::Corpus::load() {
+        use crate::{
+            corpus::{real_decode, real_encode, Dec, Enc},
+            refspec::{GenOpts, Kind, TextMode},
+        };
+        let mut sites: Vec<(String, usize, Vec<u8>)> = vec![];
+        let mut r = ctx.rng.fork(1314);
+        for lay in c.kinds() {
+            for f in &lay.fields {
+                if matches!(f.kind, Kind::Vehicle) {
+                    let o = GenOpts { text: TextMode::Ascii, max_list: Some(1), boundary: 4, hostile: false };
+                    if let Some((_, frame)) = c.ref_frame(&mut r, lay, &o, true) {
+                        sites.push((lay.name.clone(), f.off, frame));
+                    }
+                }
+            }
+        }
+        ctx.extra("packets_carrying_a_vehicle", json!(sites.iter().map(|s| format!("{}@{}", s.0, s.1)).collect::<Vec<_>>()));
+        let alnum: Vec<u8> = (0u8..=255).filter(|c| c.is_ascii_alphanumeric()).collect();
+        let stride = if exhaustive { 1 } else { 7 };
+        let sites_ref = &sites;
+        let alnum_ref = &alnum;
+        let parts: Vec<Part> = alnum
+            .par_iter()
+            .map(|&a| {
+                let mut p = Part::new();
+                let mut k = 0usize;
+                for &b in alnum_ref {
+                    for &cc in alnum_ref {
+                        k += 1;
+                        let id = [a, b, cc, 0];
+                        let direct = decode(id);
+                        // every recognised name, and a stride of the unrecognised ones
+                        if direct.is_err() && k % stride != 0 {
+                            continue;
+                        }
+                        for (kind, off, frame) in sites_ref {
+                            let mut f = frame.clone();
+                            f[*off..*off + 4].copy_from_slice(&id);
+                            p.evaluations += 1;
+                            let got = real_decode(&f, true);
+                            let replay = json!({"kind": kind, "offset": off, "identifier": hex(&id), "frame": hex(&f)});
+                            match (&direct, got) {
+                                (Err(_), Dec::Err(..)) => {},
+                                (Err(_), Dec::Panic(pn)) => p.violation(format!("C13/in-packet/{kind}/panic"), format!("{kind}: decoding with identifier {} panicked: {pn}", hex(&id)), replay),
+                                (Err(_), Dec::NeedMore) => {},
+                                (Err(_), Dec::Packet(pk, _)) => p.violation(
+                                    format!("C13/in-packet/{kind}/unrecognised-name-accepted"),
+                                    format!("{kind}: the built-in-style name {:?} is no car, yet the packet decodes: {}", String::from_utf8_lossy(&id[..3]), format!("{:?}", pk).chars().take(160).collect::<String>()),
+                                    replay,
+                                ),
+                                (Ok(v), Dec::Packet(pk, _)) => {
+                                    let dbg = format!("{:?}", pk);
+                                    let back = real_encode(&pk, true);
+                                    if !dbg.contains(&format!("{:?}", v)) || !matches!(&back, Enc::Ok(b) if b[*off..*off + 4] == id) {
+                                        p.violation(
+                                            format!("C13/in-packet/{kind}/differs-from-standalone"),
+                                            format!("{kind}: identifier {} decodes to {:?} on its own but the packet holds {}", hex(&id), v, dbg.chars().take(160).collect::<String>()),
+                                            replay,
+                                        );
+                                    }
+                                },
+                                (Ok(v), other) => p.violation(
+                                    format!("C13/in-packet/{kind}/recognised-name-rejected"),
+                                    format!("{kind}: identifier {} is {:?} on its own but the packet is rejected: {}", hex(&id), v, format!("{:?}", other).chars().take(160).collect::<String>()),
+                                    replay,
+                                ),
+                            }
+                        }
+                    }
+                }
+                p
+            })
+            .collect();
+        for p in parts {
+            ctx.merge(p);
+        }
+    }
     accepted.sort();
     accepted.dedup();
     let names: Vec<String> = accepted.iter().map(|a| String::from_utf8_lossy(a).to_string()).collect();
